@@ -495,6 +495,19 @@ func (gb *gcpBalancer) bindSubConn(bindKey string, sc balancer.SubConn) {
 	gb.scRefs[sc].affinityIncr()
 }
 
+// bindSubConnRef binds the given affinity key to the current SubConn of the
+// subConnRef. The SubConn of a ref changes (refresh) only holding the mutex, so
+// it is resolved here, under the lock: resolved by the caller it could already
+// be replaced - and removed from scRefs - when the binding is made.
+func (gb *gcpBalancer) bindSubConnRef(bindKey string, ref *subConnRef) {
+	gb.mu.Lock()
+	defer gb.mu.Unlock()
+	if _, ok := gb.affinityMap[bindKey]; !ok {
+		gb.affinityMap[bindKey] = ref.getSubConn()
+	}
+	ref.affinityIncr()
+}
+
 // unbindSubConn removes the existing binding associated with the key.
 func (gb *gcpBalancer) unbindSubConn(boundKey string) {
 	gb.mu.Lock()
